@@ -128,7 +128,7 @@ impl HullMovingAverage {
 		// C08: the constant state for the candle's source price (hma_ind_const_step)
 		r is Ok ==> r->Ok_0.const_state(src_val(candle, self.source)),
 //@replace Ok(Self::Instance { ==> Ok(HullMovingAverageInstance {
-//@replace ReversalSignal::new(cfg.left, cfg.right, &src)? ==> ReversalSignal::new3(cfg.left, cfg.right, &src)?
+//@replace ReversalSignal::new( ==> ReversalSignal::new3(
 //@end
 }
 pub open spec fn hma_ind_step(pre: &HullMovingAverageInstance, src: ValueType, post: &HullMovingAverageInstance, value: ValueType, sig: Action) -> bool {
